@@ -26,8 +26,8 @@ from ciderpress.dft.xc_evaluator import KernelEvaluator, MappedXC, RBFEvaluator
 from ciderpress.models.dft_kernel import DFTKernel
 from ciderpress.models.kernel_plans.kernel_tools import get_rbf_kernel
 
-THETA = {"MGGA": [1.0, 0.0, 0.03125], "GGA": [1.0, 0.03125]}
-FP1 = {"MGGA": [2.0, 0.0, 0.04], "GGA": [2.0, 0.04]}
+THETA = {"MGGA": [1.0, 0.007, 0.03125], "GGA": [1.0, 0.03125]}    # nonzero gradient coefficient at both levels
+FP1 = {"MGGA": [2.0, 0.004, 0.04], "GGA": [2.0, 0.04]}
 FP2 = {"MGGA": [0.5, 0.0, 0.02], "GGA": [0.5, 0.02]}
 FP3 = {"MGGA": [1.0, 0.01, 0.03, 1.2], "GGA": [1.0, 0.03, 1.2]}  # erf spec: one more param
 
